@@ -668,11 +668,16 @@ func (m *Model) Step(op *Op, res *Res) (bool, string) {
 			}
 			return true, ""
 		}
+		if op.Digest == "" && res.ListErr != nil {
+			return true, "" // not a digest at all: an error is as good an answer as "none"
+		}
 		var want []string
 		byDig := map[string]*MManifest{}
 		if r != nil {
 			for d, mm := range r.Manifests {
-				if mm.Subject == op.Digest {
+				// (no manifest names the empty string as its subject: one without a
+				// subject names none)
+				if mm.Subject == op.Digest && op.Digest != "" {
 					want = append(want, string(d))
 					byDig[string(d)] = mm
 				}
